@@ -4022,6 +4022,10 @@ func (d *Document) parseDrawingGraphic(decoder *xml.Decoder, startElement xml.St
 			}
 		}
 	}
+	if graphic.Xmlns == "" {
+		// 命名空间可能声明在祖先元素上；序列化时必须写出非空的声明（xmlns:a="" 不是合法的XML命名空间声明）
+		graphic.Xmlns = "http://schemas.openxmlformats.org/drawingml/2006/main"
+	}
 
 	for {
 		token, err := decoder.Token()
@@ -4102,6 +4106,10 @@ func (d *Document) parsePicElement(decoder *xml.Decoder, startElement xml.StartE
 				pic.Xmlns = attr.Value
 			}
 		}
+	}
+	if pic.Xmlns == "" {
+		// 同上：声明在祖先元素上的命名空间在序列化时不能写成 xmlns:pic=""
+		pic.Xmlns = "http://schemas.openxmlformats.org/drawingml/2006/picture"
 	}
 
 	for {
